@@ -137,6 +137,7 @@ class Interp:
         self.loop_ordinals = {}
         self.drops = []
         self.qctx = []
+        self.collect_safe = None
         self.target_depth = 0
         self.seq_classes = {}
         self.extra_outputs = {}
@@ -196,7 +197,7 @@ class Interp:
         if h in classes:
             sch = classes[h]
             if sch.get('kind') == 'ref':
-                return SRef(self.fresh_term(base, REF, False), h)
+                return SRef(self.fresh_term(base, sch.get('sort', REF), False), h)
             o = self.alloc_obj(sch.get('pyclass'), h)
             self.heap[o.oid]['__name__'] = base
             return o
@@ -391,6 +392,10 @@ class Interp:
         quantified (pure) context it becomes an obligation closed over the bound
         variables, so that the quantified term is only used where it is defined."""
         if smt.is_true(cond):
+            return
+        if self.pure and self.qctx and self.collect_safe is not None:
+            # a comprehension over a symbolic collection: raising is decided once, for all elements
+            self.collect_safe.append((cond, exc_factory))
             return
         if self.pure and self.qctx:
             goal = cond
